@@ -7,7 +7,7 @@ package main
 // A *case* is (workbook, UnzipXMLSizeLimit, UnzipSizeLimit, history). Transcript
 // lines (see lean/XlModel/Drv/C12.lean):
 //
-//   case <book> <xml> <size> <history>        header (answer: "case")
+//   case <book> <xml> <size> <history> [<iterator script>]   header (answer: "case")
 //   open <xml> <size> <k> (<name> <declared> <dir> <io> <len> <tag>)*k
 //   getmiss|getnum|setnum|setstr <part>       API call touching one worksheet
 //   getstr <part> <flatlen> <flattag>         GetCellValue of a shared-string cell
@@ -1021,6 +1021,8 @@ func c12FirstDiff(a, b []string) string {
 // ---------- case driver ----------
 
 type c12Ref struct {
+	script []string   // live-iterator script (c12_iter.go)
+	iter   c12IterRun // its run under default limits
 	hist   string
 	res    c12Result
 	obs0   []string
@@ -1051,6 +1053,9 @@ func c12FirstTouch(hist []string) string {
 func c12Case(r *Run, bk *c12Book, xmlL, sizeL int64, hist []string, ref *c12Ref, deep bool) {
 	hs := strings.Join(hist, ",")
 	header := fmt.Sprintf("case %s %d %d %s", c12Esc(bk.id), xmlL, sizeL, hs)
+	if len(ref.script) > 0 {
+		header += " " + strings.Join(ref.script, ",")
+	}
 	r.Op(header, "case")
 	res := c12Transcript(r, bk, xmlL, sizeL, hist, ref.res.sstOut, true)
 	ft := c12FirstTouch(hist)
@@ -1123,6 +1128,11 @@ func c12Case(r *Run, bk *c12Book, xmlL, sizeL int64, hist []string, ref *c12Ref,
 	if res.savedObs != ref.res.savedObs {
 		r.Fail("saved-file-differs:first-touch-"+ft, fmt.Sprintf("the file saved by the history reads differently from the one saved under default limits (book %s, limits %d/%d): %s", bk.id, xmlL, sizeL, c12FirstDiff([]string{"saved:" + res.savedObs}, []string{"saved:" + ref.res.savedObs})), 0, header)
 	}
+	// oracle 3c: live iterators interleaved with edits / readers / saves (only when something is spilled:
+	// otherwise the run is the reference run)
+	if res.spilled > 0 {
+		c12IterOracle(r, bk, xmlL, sizeL, ref.script, ref.iter, header)
+	}
 	// oracle 4: observations
 	obs0, left0, _ := c12Plain(bk, xmlL, sizeL, hist, 0)
 	if left0 != 0 {
@@ -1168,8 +1178,11 @@ func c12MaskSST(a string) string {
 	return a[:i] + c12Esc(c12SST) + ":*" + a[i+j:]
 }
 
-func c12MakeRef(bk *c12Book, hist []string) *c12Ref {
-	ref := &c12Ref{hist: strings.Join(hist, ",")}
+func c12MakeRef(bk *c12Book, hist []string, script []string) *c12Ref {
+	ref := &c12Ref{hist: strings.Join(hist, ","), script: script}
+	if len(script) > 0 && bk.ok {
+		ref.iter = c12RunIterScript(bk, 0, 0, script)
+	}
 	ref.res = c12Transcript(nil, bk, 0, 0, hist, nil, false)
 	ref.status = ref.res.status
 	if ref.status == "ok" {
@@ -1286,7 +1299,11 @@ func runC12(r *Run, rng *Rng, replay string) {
 		}
 		r.Stat("book:" + id[:3] + ":" + id[strings.LastIndexByte(id, ':')+1:])
 		hist := c12History(rng, len(bk.sheets), firsts[bi%len(firsts)])
-		ref := c12MakeRef(bk, hist)
+		var script []string
+		if strings.HasPrefix(id, "gen:") || bi%2 == 0 {
+			script = c12IterScript(rng, len(bk.sheets), bi)
+		}
+		ref := c12MakeRef(bk, hist, script)
 		n := nLim
 		if strings.HasPrefix(id, "fix:Book1") && !thorough {
 			n = 2
@@ -1313,8 +1330,12 @@ func c12Replay(r *Run, path string) {
 			continue
 		}
 		w := strings.Fields(line)
-		if len(w) != 5 {
+		if len(w) != 5 && len(w) != 6 {
 			continue
+		}
+		var script []string
+		if len(w) == 6 {
+			script = strings.Split(w[5], ",")
 		}
 		bk, err := c12MakeBook(c12Unesc(w[1]))
 		if err != nil {
@@ -1324,7 +1345,7 @@ func c12Replay(r *Run, path string) {
 		x, _ := strconv.ParseInt(w[2], 10, 64)
 		s, _ := strconv.ParseInt(w[3], 10, 64)
 		hist := strings.Split(w[4], ",")
-		ref := c12MakeRef(bk, hist)
+		ref := c12MakeRef(bk, hist, script)
 		c12Case(r, bk, x, s, hist, ref, true)
 	}
 }
